@@ -68,10 +68,10 @@ def regexpp(regex: Any) -> str:
     try:
         evaluated = eval(output)  # noqa: S307
         re.compile(evaluated)
-    except SyntaxError as e:
-        raise RuntimeError(
-            f"regexp() generated invalid Python syntax: {output}\n{e}",
-        ) from e
+    except SyntaxError:
+        # NOTE: not every text can be written as a raw string (backslashes
+        #   before both kinds of quotes): repr() always reads back
+        return repr(pattern_text)
     except PatternError as e:
         raise RuntimeError(
             f"regexp() generated an invalid regex pattern: {output}\n{e}",
